@@ -7,6 +7,8 @@ dec_*    : wire JSON         -> Python object via the pydantic models + deserial
 """
 from __future__ import annotations
 
+import json
+
 from .tlc import MachineryError
 
 SET_KEYS = ("runtime_reqs", "extension_delta", "extensions", "es")
@@ -279,7 +281,22 @@ def std_tys():
 def build_value(v, once=False):
     """Object-view value term -> Python value through the helper classes. once=True passes one-shot iterators wherever the
     constructor's signature says Iterable (Left / Right / Sum): the value must be the same."""
-    it = (lambda xs: iter(list(xs))) if once else (lambda xs: xs)
+    it = (lambda xs: iter(list(xs))) if once == True else (lambda xs: xs)  # noqa: E712
+    if once == "shared":
+        # equal sub-terms are ONE Python object (`[x] * n`, a reused tuple): position still counts
+        key = json.dumps(v, sort_keys=True)
+        if key in _SHARED:
+            return _SHARED[key]
+        obj = _build_value_inner(v, once, it)
+        _SHARED[key] = obj
+        return obj
+    return _build_value_inner(v, once, it)
+
+
+_SHARED: dict = {}
+
+
+def _build_value_inner(v, once, it):
     from hugr import val
     from hugr.build.dfg import Dfg
     from hugr.std.collections.array import ArrayVal
@@ -296,11 +313,11 @@ def build_value(v, once=False):
     if k == "String":
         return StringVal(v["s"])
     if k == "Array":
-        return ArrayVal([build_value(x) for x in v["vs"]], build_type(v["elem"]))
+        return ArrayVal([build_value(x, once) for x in v["vs"]], build_type(v["elem"]))
     if k == "List":
-        return ListVal([build_value(x) for x in v["vs"]], build_type(v["elem"]))
+        return ListVal([build_value(x, once) for x in v["vs"]], build_type(v["elem"]))
     if k == "StaticArray":
-        return StaticArrayVal([build_value(x) for x in v["vs"]], build_type(v["elem"]), v["name"])
+        return StaticArrayVal([build_value(x, once) for x in v["vs"]], build_type(v["elem"]), v["name"])
     if k == "UnitSum":
         return val.UnitSum(v["tag"], v["size"])
     if k == "Some":
